@@ -1,0 +1,29 @@
+//go:build verif
+
+// Contracts for package expapi (the maintenance HTTP API), checked by /verif/bin/govc.
+package expapi
+
+// The handlers address exactly the key named by the {key} path segment (as net/http's ServeMux
+// delivers it through PathValue, already unescaped once).
+// pathValue(r, name) names (*http.Request).PathValue.
+//@ func keyFromRequest
+//@   property C14
+//@   pure
+//@   requires r != nil
+//@   ensures result == pathValue(r, "key")                                            # name: the-key-is-the-path-segment-as-delivered
+
+// `callsite F :: E`: every call of F made by this function satisfies E (over F's parameter names and
+// this function's own parameters / free variables).
+//@ func retrieve$1
+//@   property C14
+//@   nosafety
+//@   requires r != nil && w != nil && conn != nil && *conn != nil
+//@   assigns *
+//@   callsite Conn.Get :: key == pathValue(r, "key")                                  # name: reads-exactly-the-addressed-key
+
+//@ func destroy$1
+//@   property C14
+//@   nosafety
+//@   requires r != nil && w != nil && conn != nil && *conn != nil
+//@   assigns *
+//@   callsite Conn.Delete :: key == pathValue(r, "key")                               # name: deletes-exactly-the-addressed-key
